@@ -146,6 +146,13 @@ Theorem C02_folding_keeps_the_codes rows U1 :
 Proof. exact (fold_leading_same_codes rows U1). Qed.
 Print Assumptions C02_folding_keeps_the_codes.
 
+(* ... and the labels the first stage really delivers (the combination of the leading pairs) meet those two conditions *)
+Theorem C02_folding_with_the_first_stage rows :
+  let U1 := snd (spec_combine (map (firstn 2) rows)) in
+  spec_combine (map (fold_row U1) rows) = (fst (spec_combine rows), map (fold_row U1) (snd (spec_combine rows))).
+Proof. exact (folding_with_the_first_stage rows). Qed.
+Print Assumptions C02_folding_with_the_first_stage.
+
 Theorem C02_unfolding_gives_the_labels_back rows U1 r :
   (forall r, In r rows -> is_null_row (firstn 2 r) = false -> In (firstn 2 r) U1) ->
   In r rows -> is_null_row r = false -> unfold_row U1 (fold_row U1 r) = r.
